@@ -1251,6 +1251,10 @@ where
                 events.push(GenericEvent::NotifyPacketIdReleased(packet_id));
                 return false; // Remove from store
             }
+            // Every retransmitted packet is an incomplete exchange of this connection
+            if self.publish_send_max.is_some() {
+                self.publish_send_count += 1;
+            }
             events.push(GenericEvent::RequestSendPacket {
                 packet: packet.clone().into(),
                 release_packet_id_if_send_error: None,
@@ -1722,7 +1726,7 @@ where
         // Check receive_maximum for sending (QoS 1 and 2 packets)
         if packet.qos() == Qos::AtLeastOnce || packet.qos() == Qos::ExactlyOnce {
             if let Some(max) = self.publish_send_max {
-                if self.publish_send_count == max {
+                if self.publish_send_count >= max {
                     events.push(GenericEvent::NotifyError(MqttError::ReceiveMaximumExceeded));
                     if let Some(packet_id) = packet_id_opt {
                         if self.pid_man.is_used_id(packet_id) {
@@ -3076,7 +3080,7 @@ where
                         self.pid_man.release_id(packet_id);
                         events.push(GenericEvent::NotifyPacketIdReleased(packet_id));
                     }
-                    if self.publish_send_max.is_some() {
+                    if self.publish_send_max.is_some() && self.publish_send_count > 0 {
                         self.publish_send_count -= 1;
                     }
                     events.extend(self.refresh_pingreq_recv());
@@ -3150,7 +3154,7 @@ where
                             self.pid_man.release_id(packet_id);
                             events.push(GenericEvent::NotifyPacketIdReleased(packet_id));
                         }
-                        if self.publish_send_max.is_some() {
+                        if self.publish_send_max.is_some() && self.publish_send_count > 0 {
                             self.publish_send_count -= 1;
                         }
                     }
@@ -3280,7 +3284,7 @@ where
                         self.pid_man.release_id(packet_id);
                         events.push(GenericEvent::NotifyPacketIdReleased(packet_id));
                     }
-                    if self.publish_send_max.is_some() {
+                    if self.publish_send_max.is_some() && self.publish_send_count > 0 {
                         self.publish_send_count -= 1;
                     }
                     events.extend(self.refresh_pingreq_recv());
